@@ -1,13 +1,14 @@
 import GS.Model.Validator
 import GS.Driver.Proto
 /-!
-Line-protocol driver for the selector-validator model (component `selval`, property C08).
+Line-protocol driver for the selector-validator model (components `selval` and `selvale2e`,
+property C08); the two executables GS/Driver/Selval.lean and GS/Driver/SelvalE2E.lean only add `main`.
 
 ops (one output line each):
   sel  <max> <selector in prefix form>   -> `v=<verdict> wf=<0|1> enc=<node in prefix form>`
                                             (or `v=- wf=0 enc=-` if a fields clause repeats a key)
   node <max> <node in prefix form>       -> `v=<verdict>`
-  wired <selector in prefix form>        -> `resp=<served|status>`  (default responder configuration)
+  wired <selector in prefix form>        -> `resp=<served|status>` | `not-wf`  (default responder configuration)
 
 selector prefix form:  m | ms a b | a S | f n (s:key S)* | i idx S | r a b S
                      | R <none|d<int>> <-|!<nat>> S | e | u n S* | t s:adl S
@@ -185,12 +186,10 @@ def stepLine (t : Toks) : String :=
     | _, _ => "bad-op"
   | "wired" :: rest =>
     match parseSel (rest.length + 1) rest with
-    | some (s, []) => if !buildable s then "bad-op" else s!"resp={showResp (defaultResponse (enc s))}"
+    | some (s, []) => if !wf s then "not-wf" else s!"resp={showResp (defaultResponse (enc s))}"
     | _ => "bad-op"
   | _ => "bad-op"
 
 def handler (ops : List Toks) : List String := ops.map stepLine
 
 end GS.Driver.Selval
-
-def main : IO Unit := GS.Proto.runModel GS.Driver.Selval.handler
